@@ -1,4 +1,4 @@
-(** C15 (thorough tier only) -- stm density, IFC-67 against IAPWS-97 on tiles, by interval arithmetic. *)
+(** C15 (thorough tier only) -- steam density, IFC-67 against IAPWS-97 on tiles, by interval arithmetic. *)
 Set Warnings "-ambiguous-paths,-notation-overridden".
 From Coq Require Import ZArith QArith Qreals Reals List Bool Lra.
 From Interval Require Import Tactic.
@@ -8,9 +8,21 @@ Import ListNotations.
 Close Scope Q_scope.
 Open Scope R_scope.
 
-Lemma S2 t p : 650 <= t <= 700 -> 5000000 <= p <= 10000000 -> rel_stm t p <= 1 / 100.
+Lemma S11 t p : 200 <= t <= 250 -> 100000 <= p <= 1000000 -> rel_stm t p <= 1 / 100.
+Proof. intros Ht Hp. unfold rel_stm. expose_stm. interval with (i_taylor t, i_bisect p, i_depth 14, i_degree 5). Qed.
+
+Lemma S41 t p : 500 <= t <= 550 -> 100000 <= p <= 1000000 -> rel_stm t p <= 1 / 100.
+Proof. intros Ht Hp. unfold rel_stm. expose_stm. interval with (i_taylor t, i_bisect p, i_depth 14, i_degree 5). Qed.
+
+Lemma S0 t p : 100 <= t <= 150 -> 12500 <= p <= 25000 -> rel_stm t p <= 1 / 100.
 Proof. intros Ht Hp. unfold rel_stm. expose_stm. interval with (i_bisect t, i_bisect p, i_depth 14). Qed.
 
-Lemma S6 t p : 750 <= t <= 800 -> 5000000 <= p <= 10000000 -> rel_stm t p <= 1 / 100.
+Lemma S18 t p : 300 <= t <= 350 -> 12500 <= p <= 25000 -> rel_stm t p <= 1 / 100.
+Proof. intros Ht Hp. unfold rel_stm. expose_stm. interval with (i_bisect t, i_bisect p, i_depth 14). Qed.
+
+Lemma S38 t p : 500 <= t <= 550 -> 12500 <= p <= 25000 -> rel_stm t p <= 1 / 100.
+Proof. intros Ht Hp. unfold rel_stm. expose_stm. interval with (i_bisect t, i_bisect p, i_depth 14). Qed.
+
+Lemma S58 t p : 650 <= t <= 700 -> 10000000 <= p <= 20000000 -> rel_stm t p <= 1 / 100.
 Proof. intros Ht Hp. unfold rel_stm. expose_stm. interval with (i_bisect t, i_bisect p, i_depth 14). Qed.
 
